@@ -652,7 +652,7 @@ def gen_commands(rnd: random.Random, proj: T.Dict[str, T.Any]) -> T.List[T.Dict[
             keys = r.sample(sorted(OPTIONS), r.choice([1, 1, 2]))
             if proj['dopts'] and r.random() < 0.5:
                 keys[0] = r.choice(sorted(proj['dopts']))
-            if r.random() < 0.65:
+            if r.random() < 0.65 and all(k in OPTIONS for k in keys):
                 out.append(acmd('do_set', '/', fn='project', opts=[(k, r.choice(OPTIONS[k])) for k in keys], cli=cli(True)))
             else:
                 out.append(acmd('do_delete', '/', fn='project', opts=[(k, '') for k in keys], cli=cli(True)))
